@@ -23,6 +23,11 @@ for f in sorted(glob.glob('/verif/work/logs/seed-*.json')):
           "patch_applies": r.get('applies'), "pinned_suite_with_patch": r.get('suite'),
           "demo_rc_on_patched_tree": r.get('demo_on_patched_rc'), "demo_rc_on_clean_tree": r.get('demo_on_clean_rc'),
           "checks": {k[6:]: {"exit": v['rc'], "wall_s": v['wall'], "lines": v['lines'][:6]} for k, v in r.items() if k.startswith('check_')}}
+    rp = '/verif/work/logs/recheck-%s.txt' % sid
+    if os.path.exists(rp):
+        lines = [l.strip() for l in open(rp) if l.strip()]
+        ev["recheck_after_strengthening"] = {"ran": "tools_seedcheck.sh %s <checks> (scratch worktree + patch, checks only, quick tier)" % sid,
+                                             "lines": lines[:8]}
     meta['evaluation'] = ev
     json.dump(meta, open(mp, 'w'), indent=1)
     print(sid, {k: v['exit'] for k, v in ev['checks'].items()})
